@@ -120,6 +120,29 @@ func runC17(r *Report) {
 		} else {
 			r.OK(rv, key, fn.Pos(), "no rejection between the WAL append and the memstore mutation")
 		}
+		// … and none after the mutation either: once logged and applied, the call has happened
+		key = rv + "/" + FuncKey(fn) + "/no-fail-after-apply"
+		late := ""
+		for _, m := range muts {
+			succ, _ := errorEdges(m)
+			for _, e := range succ {
+				reach := reachFrom(e.To, nil)
+				idx := errorResultIndex(fn)
+				for _, rs := range returnsOf(fn) {
+					if !reach[rs.Block] {
+						continue
+					}
+					if k, _ := returnErrOperand(rs.Instr.(*ssa.Return), idx); k != "nil" {
+						late = p.Pos(rs.Pos())
+					}
+				}
+			}
+		}
+		if late != "" {
+			r.Bad(rv, key, fn.Pos(), "an error return at "+late+" is reachable after the mutation was logged and applied (the memstore rotation that follows can fail: no descriptor left for the next WAL file, rotation limit): the call reports an error, yet its effect is visible at once and after recovery")
+		} else {
+			r.OK(rv, key, fn.Pos(), "nothing can fail once the mutation is logged and applied")
+		}
 	}
 
 	// R-implies: the memstore's argument rejections are nil tests of parameters
@@ -221,6 +244,7 @@ func runC17(r *Report) {
 	ruleUnbuffered(r, "handoff-unbuffered")
 	ruleHandoff(r)
 	ruleOpenFlag(r, "simpledb")
+	ruleWalkSkipsRoot(r)
 	// the string flavour's own validation returns the same sentinel
 	if fn := p.Func("simpledb.DB.Put"); fn != nil {
 		key := rd + "/simpledb.DB.Put/same-sentinel"
